@@ -115,6 +115,14 @@ def check(ctx):
             fsp = param_of_type(fn, "::StateIndex")
             ok = bool(fsp) and bool(re.match(r"^\(Iterator@\w+::next\(IntoIterator@\w+::into_iter\((?:slice::iter\()?(?:Deref@Oset::deref\()?(?:Deref@Oset::deref\()?param1\.(\w+)\.states\)?\[param%d\.0\]\.items\)?\)?\)\) as Some\)\.0$" % fsp[0], got))
             if not ok:
+                # ... or over states[i].items with i the counter of the enclosing loop over 0..states.len(), the state index
+                # handed down being StateIndex(i) of that same counter (the two scans merged into one function)
+                CNT = r"\(range::next\(IntoIterator@\w+::into_iter\(Range::Range\{const\(0_usize\), (?:slice|Vec)::len\((?:Deref@Oset::deref\()?param1\.(\w+)\.states\)?\)\}\)\) as Some\)\.0"
+                mi = re.match(r"^\(Iterator@\w+::next\(IntoIterator@\w+::into_iter\((?:slice::iter\()?(?:Deref@Oset::deref\()?(?:Deref@Oset::deref\()?param1\.(\w+)\.states\)?\[(%s)\]\.items\)?\)?\)\) as Some\)\.0$" % CNT, got)
+                if mi:
+                    sts = [g2 for (f2, c2, k2, g2) in tops if f2 is fn and k2 == "state"]
+                    ok = bool(sts) and all(g2 == "StateIndex::StateIndex{%s}" % mi.group(2) for g2 in sts)
+            if not ok:
                 # ... or over the items of a `&State` parameter that every caller fills with the state paired with the index
                 from ..conflict import state_param_is_own_state
                 mp = re.match(r"^\(Iterator@\w+::next\(IntoIterator@\w+::into_iter\((?:slice::iter\()?(?:Deref@Oset::deref\()?param(\d+)\.items\)?\)?\)\) as Some\)\.0$", got)
@@ -148,14 +156,22 @@ def check(ctx):
                     res.violate(LA, key + "|reduce-lookahead", c.where, "a reduce action must be entered under the item's own look-ahead (`as_quasiterminal(%s.lookahead)`), found `%s`" % (item, q))
                 # the rule: a parameter that the caller filled from item.rule_index
                 m = re.match(r"^Action::Reduce\{(param\d+)\}$", a)
-                if not m:
+                if not m and a == "Action::Reduce{(%s.rule_index as Original).0}" % item:
+                    pass  # read off the item in place (the filler inlined into the function that holds the item)
+                elif not m:
                     res.violate(LA, key + "|reduce-rule", c.where, "the reduced rule must be the rule index forwarded from the item, found `%s`" % a)
                 else:
                     check_rule_index_origin(mir, st, fn, int(m.group(1)[5:]), res, LA)
             elif a.startswith("Action::Shift{"):
                 m = re.match(r"^Quasiterminal::Terminal\{(param\d+)\}$", q)
                 tparam = m.group(1) if m else None
-                if not m:
+                TERM_AT_DOT = "(%s(Index@Vec::index(param1.rules, (%s.rule_index as Original).0).fieldset, %s.dot) as Terminal).0.name" % (R.nm("symbol_accessor"), item, item)
+                if not m and q == "Quasiterminal::Terminal{%s}" % TERM_AT_DOT:
+                    # the terminal at the item's own dot in its own rule, read off in place (the shift filler inlined)
+                    want_a = "Action::Shift{Option::unwrap(%s(param1.%s, %s, %s))}" % (R.nm("machine_shift_dest"), ctx_fields.get("machine", ("?", "machine"))[1], state, TERM_AT_DOT)
+                    if a != want_a:
+                        res.violate(LA, key + "|shift-dest", c.where, "the shift destination must be the transition from this very state on this very terminal (`%s`), found `%s`" % (want_a, a))
+                elif not m:
                     res.violate(LA, key + "|shift-lookahead", c.where, "a shift action must be entered under the terminal at the item's dot, found `%s`" % q)
                 else:
                     want_a = "Action::Shift{Option::unwrap(%s(param1.%s, %s, %s))}" % (R.nm("machine_shift_dest"), ctx_fields.get("machine", ("?", "machine"))[1], state, tparam)
